@@ -6,6 +6,9 @@
                                   nonlocals, names captured by nested functions/comprehension-free closures are left alone)
   auto_benign.py swap-branches    `if c: A else: B` -> `if not c: B else: A` for every plain if/else
   auto_benign.py hoist-returns    `return <expr>` -> `tmp = <expr>; return tmp` for call / comparison / boolean / arithmetic results
+  auto_benign.py sort-keywords    keyword arguments of every call in alphabetical order
+  auto_benign.py alias-imports    `import os` -> `import os as os_`, `from .m import f` -> `... import f as f_` (uses renamed), except in __init__.py
+  auto_benign.py all              every mode in turn
   auto_benign.py swap-compare     write `a == b` with constant/None left operand the other way round where the operator is
                                   symmetric (==, !=, is, is not)
 
@@ -22,147 +25,17 @@ import tempfile
 VERIF = os.path.dirname(os.path.dirname(os.path.abspath(__file__)))
 
 
-def _scope_locals(src):
-    """(function lineno, name) -> set of renamable locals."""
-    res = {}
-
-    def visit(tab):
-        for ch in tab.get_children():
-            if ch.get_type() == "function":
-                captured = set()
-
-                def free_in(t):
-                    for c in t.get_children():
-                        for s in c.get_symbols():
-                            if s.is_free():
-                                captured.add(s.get_name())
-                        free_in(c)
-                free_in(ch)
-                names = set()
-                for s in ch.get_symbols():
-                    if s.is_local() and not s.is_parameter() and not s.is_global() and not s.is_nonlocal() and not s.is_free() \
-                            and s.get_name() not in captured and not s.is_imported() and s.is_assigned() and not s.is_namespace():
-                        names.add(s.get_name())
-                res[(ch.get_lineno(), ch.get_name())] = names
-            visit(ch)
-    visit(symtable.symtable(src, "<m>", "exec"))
-    return res
-
-
-class Renamer(ast.NodeTransformer):
-    def __init__(self, table):
-        self.table = table
-        self.stack = []
-
-    def _fn(self, node):
-        names = self.table.get((node.lineno, node.name), set())
-        # comprehension scopes and class bodies inside keep their own names; nested functions are handled by their own entry
-        self.stack.append(names)
-        node.body = [self.visit(s) for s in node.body]
-        self.stack.pop()
-        # decorators / defaults belong to the enclosing scope
-        node.decorator_list = [self.visit(d) for d in node.decorator_list]
-        return node
-
-    visit_FunctionDef = _fn
-    visit_AsyncFunctionDef = _fn
-
-    def visit_Lambda(self, node):
-        return node  # lambdas may capture; captured names were excluded already, leave the body alone
-
-    def visit_Name(self, node):
-        if self.stack and node.id in self.stack[-1]:
-            return ast.copy_location(ast.Name(id=node.id + "_", ctx=node.ctx), node)
-        return node
-
-    def visit_ExceptHandler(self, node):
-        if self.stack and node.name and node.name in self.stack[-1]:
-            node.name = node.name + "_"
-        self.generic_visit(node)
-        return node
-
-    def visit_ClassDef(self, node):
-        self.stack.append(set())
-        self.generic_visit(node)
-        self.stack.pop()
-        return node
-
-
-class Swapper(ast.NodeTransformer):
-    def visit_Compare(self, node):
-        self.generic_visit(node)
-        if len(node.ops) == 1 and isinstance(node.ops[0], (ast.Eq, ast.NotEq)) and isinstance(node.comparators[0], ast.Constant) \
-                and not isinstance(node.left, ast.Constant) and isinstance(node.comparators[0].value, (str, int)) and not isinstance(node.comparators[0].value, bool):
-            return ast.copy_location(ast.Compare(left=node.comparators[0], ops=node.ops, comparators=[node.left]), node)
-        return node
-
-
-class BranchSwapper(ast.NodeTransformer):
-    """if c: A else: B  ->  if not c: B else: A   (only for a plain else, not for elif chains)"""
-    def visit_If(self, node):
-        self.generic_visit(node)
-        if node.orelse and not (len(node.orelse) == 1 and isinstance(node.orelse[0], ast.If)):
-            t = node.test
-            nt = t.operand if isinstance(t, ast.UnaryOp) and isinstance(t.op, ast.Not) else ast.UnaryOp(op=ast.Not(), operand=t)
-            return ast.copy_location(ast.If(test=nt, body=node.orelse, orelse=node.body), node)
-        return node
-
-
-class Hoister(ast.NodeTransformer):
-    """`return <call or comparison>` -> `result_ = <expr>; return result_`  and  `if <call-containing test>:` -> `cond_ = <test>; if cond_:` (first statement level only,
-    never inside loops' tests; evaluation order is unchanged)."""
-    def __init__(self):
-        self.n = 0
-
-    def _body(self, stmts):
-        out = []
-        for s in stmts:
-            s = self.visit(s)
-            if isinstance(s, ast.Return) and isinstance(s.value, (ast.Call, ast.Compare, ast.BoolOp, ast.BinOp)):
-                self.n += 1
-                nm = f"result_{self.n}_"
-                out.append(ast.copy_location(ast.Assign(targets=[ast.Name(id=nm, ctx=ast.Store())], value=s.value), s))
-                out.append(ast.copy_location(ast.Return(value=ast.Name(id=nm, ctx=ast.Load())), s))
-            else:
-                out.append(s)
-        return out
-
-    def generic_visit(self, node):
-        super().generic_visit(node)
-        for f in ("body", "orelse", "finalbody"):
-            v = getattr(node, f, None)
-            if isinstance(v, list) and v and isinstance(v[0], ast.stmt) and not isinstance(node, (ast.Module, ast.ClassDef)):
-                setattr(node, f, self._body(v))
-        return node
-
-
-def transform(mode, root):
-    n = 0
-    for r, d, fs in os.walk(root):
-        for f in fs:
-            if not f.endswith(".py"):
-                continue
-            p = os.path.join(r, f)
-            src = open(p).read()
-            tree = ast.parse(src)
-            if mode == "rename-locals":
-                tree = Renamer(_scope_locals(src)).visit(tree)
-            elif mode == "swap-compare":
-                tree = Swapper().visit(tree)
-            elif mode == "swap-branches":
-                tree = BranchSwapper().visit(tree)
-            elif mode == "hoist-returns":
-                tree = Hoister().visit(tree)
-            ast.fix_missing_locations(tree)
-            out = ast.unparse(tree) + "\n"
-            compile(out, p, "exec")
-            open(p, "w").write(out)
-            n += 1
-    return n
+sys.path.insert(0, VERIF)
+from sigstat.transforms import transform, MODES  # noqa: E402
 
 
 def main():
     mode = sys.argv[1]
+    if mode == "all":
+        rc = 0
+        for m in MODES:
+            rc |= subprocess.run([sys.argv[0], m] + sys.argv[2:]).returncode
+        return rc
     keep = "--keep" in sys.argv
     tmp = tempfile.mkdtemp(prefix="sigstat-auto-")
     try:
